@@ -131,6 +131,7 @@ _CASE_RE = re.compile(r'^<<"(CASE|VERDICT|INFO)", (".*")>>$')
 class TlcResult:
     def __init__(self):
         self.cases = []
+        self.info = []
         self.generated = 0
         self.distinct = 0
         self.rc = None
@@ -189,6 +190,8 @@ def tlc_mc(module, cfg_text, tag, workers=4, timeout=900, simulate=None, seed=No
                         on_case(payload)
                     else:
                         res.cases.append(payload)
+                elif kind == "INFO":
+                    res.info.append(payload)
                 continue
             sm = _STATS_RE.search(line)
             if sm:
